@@ -862,13 +862,15 @@ class Unit:
                 raise TemplateError('%s: bad closure annotation %r' % (path, ann))
             params, retb, ens = mm.group(1), mm.group(2), mm.group(3)
             new = '%s|%s| -> %s' % ('move ' if c['move'] else '', params, retb)
-            if ens:
-                new += ' ensures ' + ens.replace('@BODY', inner)
             # R2 inside an annotated closure: a by-reference pattern parameter `&x` is taken as `x__r` and copied out first
             pre = ''
+            inner_spec = inner
             for mref in re.finditer(r'&\s*([a-z_][a-z0-9_]*)\b', c.get('params') or ''):
                 if re.search(r'\b%s__r\b' % re.escape(mref.group(1)), params):
                     pre += 'let %s = *%s__r; ' % (mref.group(1), mref.group(1))
+                    inner_spec = re.sub(r'(?<![A-Za-z0-9_.])%s(?![A-Za-z0-9_])' % re.escape(mref.group(1)), '(*%s__r)' % mref.group(1), inner_spec)
+            if ens:
+                new += ' ensures ' + ens.replace('@BODY', inner_spec)
             new += ' { ' + pre + inner + ' }'
             log.append(dict(rule='closure-annotation', before=norm_ws(body[c['start']:c['body_end']]), after=norm_ws(new)))
             edits.append((c['start'], c['body_end'], new, None))
